@@ -13,53 +13,22 @@ theorem inv_rlp (n : Nat) (sh : Sh) (pcs : Nat → Pc) (t : Nat) (e : Env) (o : 
   simp only [cntR] at hC
   have hgp : gpc (pcs t) = .idle := by rw [hpc]; rfl
   have hrp : rpc (pcs t) = .held := by rw [hpc]; rfl
-  simp only [tstepG, Bool.false_and, Bool.false_eq_true, if_false] at hts
+  simp only [tstepG] at hts
   split at hts
   next hd =>
     subst hd
-    simp only [beq_self_eq_true, if_true] at hC
-    split at hts
-    · contradiction
-    next hpos =>
-    split at hts
-    next h1 =>
-      -- the last reader leaves: gate unlock() on behalf of the reader group
-      simp only [Option.some.injEq, Prod.mk.injEq] at hts; obtain ⟨rfl, rfl⟩ := hts
-      have hg0 : sh.grp = true := hgrp.mpr (by omega)
-      refine ⟨gate_from_G n sh _ pcs t _ hlt hgI hgp rfl rfl rfl hg0 rfl,
-        rl_same n sh _ pcs t _ hlt hrI rfl (by rw [hrp]; rfl), ?_, ?_, hwg⟩
-      · have := hC (.gul .dropR (.p0fadd .fin)); simp [cntR] at this; simp only []; omega
-      · simp
-    next h1 =>
-      simp only [Option.some.injEq, Prod.mk.injEq] at hts; obtain ⟨rfl, rfl⟩ := hts
-      refine ⟨gate_same n sh _ pcs t _ hlt hgI rfl rfl rfl (by rw [hgp]; rfl),
-        rl_step n sh _ pcs t _ .unlock hlt hrI (by rw [hrp]; rfl), ?_, ?_, hwg⟩
-      · have := hC (.rul .dropR 0 (.p0fadd .fin)); simp [cntR] at this; simp only []; omega
-      · simp only []; constructor
-        · intro _; omega
-        · intro _; exact hgrp.mpr (by omega)
+    simp only [Option.some.injEq, Prod.mk.injEq] at hts; obtain ⟨rfl, rfl⟩ := hts
+    refine ⟨gate_same n sh _ pcs t _ hlt hgI rfl rfl rfl (by rw [hgp]; rfl),
+      rl_same n sh _ pcs t _ hlt hrI rfl (by rw [hrp]; rfl), ?_, hgrp, hwg⟩
+    have := hC .rdec; simp [cntR] at this; simp only []; omega
   next hd =>
   split at hts
   next hr =>
     have hnd : (o == Op.dropR) = false := by cases o <;> simp_all
-    simp only [hnd, Bool.false_eq_true, if_false] at hC
-    split at hts
-    next h0 =>
-      -- first reader: go for the gate
-      simp only [Option.some.injEq, Prod.mk.injEq] at hts; obtain ⟨rfl, rfl⟩ := hts
-      refine ⟨?_, rl_same n sh _ pcs t _ hlt hrI rfl (by rw [hrp]; simp [rpc, hr]), ?_, hgrp, hwg⟩
-      · cases hb : blocking o
-        · exact gate_step n sh _ pcs t _ .startTry hlt hgI (by rw [hgp]; simp [gpc, hb, Mutex.tstep]) rfl rfl
-        · exact gate_step n sh _ pcs t _ .startLock hlt hgI (by rw [hgp]; simp [gpc, hb, Mutex.tstep]) rfl rfl
-      · have := hC (.gld o); simp [cntR] at this; simp only []; omega
-    next h0 =>
-      simp only [Option.some.injEq, Prod.mk.injEq] at hts; obtain ⟨rfl, rfl⟩ := hts
-      refine ⟨gate_same n sh _ pcs t _ hlt hgI rfl rfl rfl (by rw [hgp]; simp [gpc, hr]),
-        rl_same n sh _ pcs t _ hlt hrI rfl (by rw [hrp]; simp [rpc, hr]), ?_, ?_, hwg⟩
-      · have := hC (.psn o); simp [cntR, hr] at this; simp only []; omega
-      · simp only []; constructor
-        · intro _; omega
-        · intro _; exact hgrp.mpr (by omega)
+    simp only [Option.some.injEq, Prod.mk.injEq] at hts; obtain ⟨rfl, rfl⟩ := hts
+    refine ⟨gate_same n sh _ pcs t _ hlt hgI rfl rfl rfl (by rw [hgp]; rfl),
+      rl_same n sh _ pcs t _ hlt hrI rfl (by rw [hrp]; rfl), ?_, hgrp, hwg⟩
+    have := hC (.rld o); simp [cntR, hnd] at this; simp only []; omega
   next => contradiction
 
 end MayVerif.RwLock
